@@ -64,7 +64,7 @@ Section Rig.
   Definition codes (l : list (nat * bool)) : list nat := omap (fun '(c, ok) => if ok : bool then None else Some c) l.
   Definition all_none (l : list (option id)) : bool := forallb (fun a => match a with None => true | Some _ => false end) l.
   Definition wtgt_nomap (m : machine) (w : option wref) : bool :=
-    match w with Some (WTo o) => negb (ismapb m o) | _ => true end.
+    match w with Some (WTo o) => negb (ismapb m o) && (match heap m !! o with Some _ => true | None => false end) | _ => true end.
 
   (** *** the state invariant *)
   Definition obj_codes (m : machine) (o : id) (x : obj) : list nat :=
@@ -77,7 +77,6 @@ Section Rig.
       (13, implb (k_weak K && ind && is_b BAlloc x && negb (is_dropped h)) (mark_eqb (h_mark h) IL && st_dropping m));
       (14, implb (negb (k_weak K)) (match o_side x with None => true | _ => false end));
       (15, implb (o_ismap x) (match o_fields x, o_cleaner x, o_wfields x with [], None, [] => true | _, _, _ => false end));
-      (16, implb (is_v VDropped x) (all_none (o_fields x) && match o_cleaner x with None => true | _ => false end));
       (17, implb ind (negb (is_b BNotYet x) && negb (is_v VMoved x) && negb (is_v VUninit x)));
       (60, forallb (wtgt_nomap m) (o_wfields x))
     ].
@@ -96,7 +95,7 @@ Section Rig.
                          | None => false
                          | Some xp =>
                            implb (is_live xp && negb (inD m p)) (is_live xt && negb (inD m t))
-                           && implb (inD m t) (inD m p && implb (is_v VDropping xp) (marked xt))
+                           && implb (inD m t) (inD m p && negb (is_v VDropped xp) && implb (is_v VDropping xp) (marked xt))
                          end
              end)
       ]
@@ -111,7 +110,8 @@ Section Rig.
     ++ codes [(31, pc_alive m);
               (32, forallb (fun o => match heap m !! o with Some _ => true | None => false end) (dead m));
               (50, Nat.eqb (length (slots m)) nslots && Nat.eqb (length (wslots m)) nslots);
-              (61, forallb (wtgt_nomap m) (wslots m) && forallb (fun w => wtgt_nomap m (Some w)) (wparam m))]
+              (61, forallb (wtgt_nomap m) (wslots m) && forallb (fun w => wtgt_nomap m (Some w)) (wparam m));
+              (62, forallb (fun c => match c with Some cr => match heap m !! cr_map cr with Some _ => true | None => false end | None => true end) (cslots m))]
     ++ concat (imap (fun v a => match a with
                                 | Some o =>
                                   codes [(40, match heap m !! o with Some x => is_b BFreed x && is_v VMoved x | None => false end);
@@ -129,8 +129,8 @@ Section Rig.
     | None => true
     | Some g => match heap m !! g with
                 | Some x => (is_alloc x && is_live x && negb (inD m g) && negb (o_ismap x) && prot c m g x)
-                            || forallb cmd_no_self cs
-                | None => forallb cmd_no_self cs
+                            || (forallb cmd_no_self cs && is_v VDropping x)
+                | None => false
                 end
     end.
 
@@ -145,7 +145,7 @@ Section Rig.
              (111, match r with
                    | RSlot i => i <? nslots
                    | RField p j => match heap m !! p with
-                                   | Some x => (j <? length (o_fields x)) && negb (is_b BNotYet x)
+                                   | Some x => (j <? length (o_fields x)) && negb (is_b BNotYet x) && negb (is_v VDropping x)
                                    | None => false end
                    end);
              (112, match read_loc r m with Some t => own_okb m t | None => true end)]
@@ -187,12 +187,13 @@ Section Rig.
               && Nat.eqb (length (o_fields x')) (length (o_fields x)));
         (212, implb (is_v VDropped x) (is_v VDropped x'));
         (213, implb (negb (is_b BNotYet x)) (negb (is_b BNotYet x')) && implb (is_b BFreed x) (is_b BFreed x'));
-        (214, implb (is_b BNotYet x && notex) (obj_eqb x' x));
+        (214, implb (is_b BNotYet x && notex && negb (is_v VDropping x)) (obj_eqb x' x));
         (215, implb (is_v VDropping x && notex)
                 (is_v VDropping x' && (if decide (o_fields x' = o_fields x) then true else false)
                  && (if decide (o_cleaner x' = o_cleaner x) then true else false)
                  && box_eqb (o_box x') (o_box x) && implb (inD m' o) (inD m o)));
-        (216, implb (negb (marked x)) (negb (marked x')));
+        (216, implb (negb (marked x) && negb (is_b BFreed x')) (negb (marked x')));
+        (218, implb (notex && is_v VDropping x') (is_v VDropping x));
         (217, implb (notex && is_alloc x && prot c m o x)
                 (is_alloc x' && vst_eqb (o_vst x') (o_vst x) && implb (inD m' o) (inD m o)
                  && implb (marked x && st_collecting m) (mark_eqb (h_mark (o_hdr x')) (h_mark (o_hdr x)))))
@@ -204,12 +205,21 @@ Section Rig.
     | ONormal | OPanic =>
       codes [(200, Bool.eqb (st_collecting m') (st_collecting m));
              (201, forallb (fun o => inD m' o) (dead m));
-             (202, forallb (fun o => implb (undropped m' o) (undropped m o)) (dead m'));
+             (202, implb (k_weak K) (forallb (fun o => implb (undropped m' o) (undropped m o)) (dead m')));
              (203, match r with
                    | ONormal => forallb (fun o => implb (negb (inD m o))
                                                    (match heap m' !! o with Some x' => is_v VDropped x' | None => false end)) (dead m')
                    | _ => true end)]
       ++ concat (imap (objfr_codes c m m') (heap m))
+      ++ (let quiet o := match heap m !! o with
+                          | Some x => if o_ismap x && match o_mslots x with [] => true | _ => false end
+                                      then forallb (fun '(p, y) => Nat.eqb p o || match heap m' !! p with Some y' => obj_eqb y' y | None => false end)
+                                                   (imap (fun p y => (p, y)) (heap m))
+                                      else true
+                          | None => true end in
+          match c with
+          | KDropCc o | KDropValue o => codes [(230, quiet o)]
+          | _ => [] end)
       ++ match c with
          | KDropValue o =>
            codes [(220, match heap m !! o, heap m' !! o with
